@@ -885,7 +885,30 @@ func nullElementIn(sh *c11Shape, tree *jn) bool {
 			}
 		}
 	}
+	// the map-value unwrap container hands its scalar list siblings to encoding/json
+	if sh.kind == "mapval" && tree.k == 'o' {
+		if m := containerScalarListWithNull(sh, tree); m != nil {
+			return true
+		}
+	}
 	return false
+}
+
+// containerScalarListWithNull: the member of a container body that is a repeated SCALAR sibling
+// holding a null element.
+func containerScalarListWithNull(sh *c11Shape, tree *jn) *jn {
+	for _, m := range tree.obj {
+		for _, f := range sh.mi.in.Fields {
+			if f.JSON() == m.key && f.Card == "repeated" && f.Kind != "message" && m.val != nil && m.val.k == 'a' {
+				for _, e := range m.val.arr {
+					if e.k == 'n' {
+						return m.val
+					}
+				}
+			}
+		}
+	}
+	return nil
 }
 
 // dropUnmatchedChildMembers removes the members a flatten / flattened-oneof decoder hands to
@@ -1233,6 +1256,17 @@ func auxFor(key string, k *c11Case) (map[string]any, string) {
 				}
 			}
 			return map[string]any{"op": "aux_case", "what": "unwrap_elems", "body": abs.model()}, "dispatch"
+		}
+		if sh.kind == "mapval" && k.tree != nil && k.tree.k == 'o' {
+			if l := containerScalarListWithNull(sh, k.tree); l != nil {
+				abs := l.clone()
+				for i, e := range abs.arr {
+					if e.k != 'n' {
+						abs.arr[i] = jBool(true)
+					}
+				}
+				return map[string]any{"op": "aux_case", "what": "unwrap_elems", "body": abs.model()}, "dispatch"
+			}
 		}
 	}
 	return nil, ""
